@@ -7,7 +7,12 @@ Decided clauses:
   R4.2 verify functions return 0 only if a full-length constant-time comparison of the caller's
        tag with the tag just recomputed by the one-shot MAC over the same (in, inlen, key)
        returned 0.
-NOT decided: digest values, chunking associativity, Poly1305 carries, HKDF chaining.
+  R4.4 (E12 known-bits, contradiction rule) carry chains are not cut: in the Poly1305 units no right
+       shift / mask of a non-literal value is identically zero - a limb that is masked to k bits
+       before `>> k` reads its carry makes the final reduction dead code.
+  R4.5 branch-free selects `x ^ ((x ^ y) & mask)` in the Poly1305 units choose between the two values they
+       mix (the final "h or h - p" selection limb by limb).
+NOT decided: digest values, chunking associativity, the values of the Poly1305 carries, HKDF chaining.
 """
 from .. import terms as T
 from ..build import AnalysisBroken
@@ -86,3 +91,8 @@ def run(ctx, chk):
         s = auth.summary(fn)
         chk.ob("R4.2w", fn, "front end accepts only through a verified MAC comparison (all dispatch targets)", s["ok"],
                detail="compared lengths %s" % sorted(map(str, s["lens"])), key="R4.2w %s" % name)
+    # ---- R4.4 ---------------------------------------------------------------------------------------------------
+    from .. import knownbits
+    knownbits.dead_carry_rule(prog, chk, "R4.4", ("crypto_onetimeauth/poly1305/",), floor=20)
+    # ---- R4.5 ---------------------------------------------------------------------------------------------------
+    knownbits.select_idiom_rule(prog, chk, "R4.5", ("crypto_onetimeauth/poly1305/",), floor=3)
